@@ -63,7 +63,7 @@ def main():
         p = subprocess.run([sys.executable, os.path.abspath(__file__), check_id, '--replay', args.replay,
                             '--replay-child'], capture_output=True, text=True, timeout=600)
         sys.stdout.write(p.stdout)
-        died = p.returncode < 0 or p.returncode >= 100 or 'AddressSanitizer' in p.stderr or 'runtime error:' in p.stderr
+        died = p.returncode < 0 or p.returncode >= 100 or 'ERROR: AddressSanitizer' in p.stderr or 'runtime error:' in p.stderr
         if died:
             print(f'VIOLATION property={check_id} replay={args.replay}')
             print('   clause=process-crash ' + kernel.crash_summary(p.returncode, p.stderr)[:1500])
@@ -101,7 +101,10 @@ def report(check, tier, seed, agg):
     from sim import kernel
     known = kernel.load_known()
     check.setup_worker()
+    import signal
+    signal.signal(signal.SIGALRM, kernel._alarm)      # (minimisers and re-runs in this process use wall limits)
     new_violations = []
+    hang_confirmed = False
     known_hits = {}
     seen_sigs = {}
     new_classes = {}
@@ -109,26 +112,33 @@ def report(check, tier, seed, agg):
     for entry in agg['violations']:
         v = entry['violation']
         case = entry['case']
-        if v.get('clause') == 'hang' and case is not None:
+        if v.get('clause') == 'hang' and case is not None and not hang_confirmed:
             # a wall-clock watchdog can fire because the machine stalled: the verdict needs the case to exceed twice
-            # the limit again when it runs alone
-            import signal
-            signal.signal(signal.SIGALRM, kernel._alarm)
-            again = kernel.run_one(check, case, 2 * check.plan(tier).get('case_timeout_s', 20))
+            # the limit again when it runs alone (once one hang is confirmed the others are believed)
+            limit = check.plan(tier).get('case_timeout_s', 20)
+            again = kernel.run_one(check, case, min(2 * limit, limit + 60))
             if not any(x.get('clause') == 'hang' for x in again.get('violations') or ()):
                 print(f"note: watchdog fired for case {entry['index']} but it finishes when re-run alone - not a hang")
                 agg['violation_count'] -= 1
                 continue
+            hang_confirmed = True
         sig0 = (v.get('clause'), check.config_class(v.get('config')))
         n_same = seen_sigs.get(sig0, 0)
         seen_sigs[sig0] = n_same + 1
         mcase, mv = case, v
         if case is not None and n_same < 3 and time.time() < budget_t and v.get('clause') not in ('process-crash', 'hang'):
             try:
+                # one minimisation never takes more than this (a reduced case may make a defective tree loop)
+                signal.setitimer(signal.ITIMER_REAL, check.plan(tier).get('minimise_one_s', 150))
                 mcase, mv = check.minimise(case, v)
+            except kernel.WatchdogTimeout:
+                print(f"note: minimising case {entry['index']} ran out of time - reporting it unminimised")
+                mcase, mv = case, v
             except BaseException:   # noqa
                 traceback.print_exc()
                 mcase, mv = case, v
+            finally:
+                signal.setitimer(signal.ITIMER_REAL, 0)
         try:
             sig = check.signature(mcase, mv) if mcase is not None else {'clause': v.get('clause')}
         except Exception as e:
@@ -209,4 +219,12 @@ def replay(check, path):
 
 
 if __name__ == '__main__':
-    sys.exit(main())
+    try:
+        _rc = main()
+    except SystemExit:
+        raise
+    except BaseException:   # noqa  - a crash of the machinery is a harness error (exit 2), never a verdict (exit 1)
+        traceback.print_exc()
+        print('HARNESS-ERROR uncaught exception in the checking machinery (see the traceback on stderr)')
+        _rc = 2
+    sys.exit(_rc)
